@@ -99,7 +99,8 @@ func handleJcc(params x86genParams, ctx *CodeGenContext) ([]byte, error) {
 		// JMP rel16 (オペコード: e9, オフセット: 2 bytes)
 		// JMP rel32 (オペコード: e9, オフセット: 4 bytes)
 		relativeOffset := destAddr - currentAddr // ジャンプ先までの相対距離
-		offsetSize := getOffsetSize(relativeOffset)
+		// rel8 のディスプレースメントは命令の終端 (先頭+2) からの距離なので、その値が int8 に収まるかで判定する
+		offsetSize := getOffsetSize(relativeOffset - 2)
 
 		switch offsetSize {
 		case 1:
@@ -194,7 +195,8 @@ func handleJcc(params x86genParams, ctx *CodeGenContext) ([]byte, error) {
 	}
 
 	relativeOffset := destAddr - currentAddr // ジャンプ先までの相対距離を先に計算
-	switch getOffsetSize(relativeOffset) {
+	// rel8 のディスプレースメントは命令の終端 (先頭+2) からの距離なので、その値が int8 に収まるかで判定する
+	switch getOffsetSize(relativeOffset - 2) {
 	case 1: // rel8
 		// rel8: Opcode (1) + Offset (1) = 2 bytes
 		// オフセットはジャンプ命令の *次の* 命令のアドレスからの相対距離
